@@ -9,11 +9,14 @@ namespace Lcm
 (b) is a statement about target plumbing: `solve_and_simulate` *is* `simulate` with
 `vf_arr_list := solve(params)` (`if vf_arr_list is None: vf_arr_list = solve_model(params)`).
 (a) combines R1 and R2: the simulated value of an agent and the array entry of its grid state are both *the*
-maximum (`IsMaxOver`, unique) of the same objective over the same admissible set. Partial: the identification
-of the two admissible sets is proved under two explicit hypotheses that express "the agent's state is that
-grid state" (`hEnv`: the two environments answer every lookup alike - true when variable names are pairwise
-distinct, which `Model` enforces) and "filters read filter-restricted variables only" (`hFilt` - the definition
-of *restricted*: ancestor of a filter); both are exercised by the correspondence on every on-grid agent. -/
+maximum (`IsMaxOver`, unique) of the same objective over the same admissible set. `C06_on_grid_value` /
+`C06_on_grid_value_unrestricted` prove it at full strength under the only hypotheses that the variable names are
+pairwise distinct (`allNames … .Nodup` - enforced by `Model`: dict keys, no name used as state and choice) and
+that the agent's state is, as a set of (name, value) pairs, the grid state: the identification of the two
+environments is `env_on_grid` (lookups are invariant under permutation of an association list with distinct
+keys), "filters read filter-restricted variables only" is `filt_on_grid` (frame property `callF_frame` of by-name
+evaluation + the definition of *restricted* = ancestor of a filter). The `_partial` versions keep the two facts
+as explicit hypotheses. -/
 
 /-- target 'solve_and_simulate' -/
 def solveAndSimulate (m : Model) (P : Params) (init : List (List (Name × Rat))) (draws : Draws) : List (List Record) :=
